@@ -70,12 +70,12 @@ def plans_c04(prop, tier, seed):
 def plans_c16(prop, tier, seed):
     q = tier == "quick"
     return [
-        dict(name="exhJB", consts=base_consts(NR=2 if q else 3, Writer0=[1, 2] if q else [1, 2, 1],
-                                              Lid=["X"] * (2 if q else 3), Denied=[set()] * (2 if q else 3),
-                                              MaxE=4 if q else 5, MaxOps=6, Sizes={0, 1, 2, 3, 4, 5, 6, 7})),
+        dict(name="exhJB", consts=base_consts(NR=2, Writer0=[1, 2], Lid=["X"] * 2, Denied=[set()] * 2,
+                                              MaxE=4 if q else 5, MaxOps=6 if q else 7, Sizes={0, 1, 2, 3, 4, 5, 6, 7}),
+             max_scripts=None if q else 400000),
         # a third, empty replica receives a forked source with unbalanced branches in one bounded join
         dict(name="exhJB3", consts=base_consts(NR=3, Writer0=[1, 2, 3], MaxE=4, MaxOps=6, Sizes={1, 2, 3}),
-             max_scripts=60000 if q else None),
+             max_scripts=25000 if q else 300000),
         dict(name="exhJBhash", consts=base_consts(NR=2, Writer0=[1, 1], Lid=["X"] * 2, Denied=[set()] * 2, Fn="HASH",
                                                   MaxE=4 if q else 5, MaxOps=5 if q else 7, Sizes={0, 1, 2, 3, 6})),
     ]
